@@ -589,10 +589,17 @@ class _Graph:
         return self.fnc[(mid, sid)]
 
     def eff(self, n):
+        # (Ovld.tla Overlay: a signature of the upper layer replaces the lower layer's whole chain under it)
+        def overlay(e, g):
+            sigs = {k[0] for k in g}
+            for k in [k for k in e if k[0] in sigs]:
+                del e[k]
+            e.update(g)
+
         e = {}
         for p in self.mix[n]:
-            e.update(self.eff(p))
-        e.update(self.own[n])
+            overlay(e, self.eff(p))
+        overlay(e, self.own[n])
         return e
 
     def pushdown(self, t, s, r, m):
